@@ -7,6 +7,7 @@ from specs import arscwriter as AW, resvalue as RV
 
 AXML = "androguard/core/axml/__init__.py"
 META = {
+    "technique": 'contract-based deductive verification: symbolic execution of the real functions against sidecar contracts (z3/cvc5) for the proved units; bounded contract evaluation (enumerated scope / independent writer) for the rest',
     "level": "other",
     "partial": True,
     "level_text": "Proof (carriers): ARSCResTableEntry.__init__ and is_complex/is_compact/is_weak/is_public decode size, flags, key "
